@@ -8,9 +8,9 @@ import re
 
 from ..core import Checker, Rule, attr_calls, callee_is, calls_in, kwarg, resolved_calls, short
 from ..interp import Pins, find_nodes, unparse
-from .util import effect_table, enclosing_loop, enclosing_stmt, enum_members, every_iteration_reaches, fmt, inline_displays, is_const, parent, parents, returns_of, self_attr_for_param, single_def
+from .util import ancestors, effect_table, enclosing_loop, enclosing_stmt, enum_members, every_iteration_reaches, fmt, inline_displays, is_const, parent, parents, returns_of, self_attr_for_param, single_def
 
-P14 = ("C14", "C01")
+P14 = ("C14", "C01", "C06")
 G = "math_simplification:Goebner"
 
 
@@ -180,6 +180,31 @@ def r_merge(ck: Checker) -> None:
     ck.add("a merged aggregate is a #sum", len(fin) == 1 and unparse(kwarg(fin[0], "function")) == "AggregateFunction.Sum", func, func.node, f"`{fmt(fin[0]) if fin else None}`", "")  # type: ignore[arg-type]
     for r in find_nodes(func.node, lambda n: isinstance(n, ast.Raise)):
         ck.guard("min/max aggregates are never added", func, r, "collector.function in (AggregateFunction.Min, AggregateFunction.Max)" if enclosing_loop(func, r) is None else "aggs[index].function in (AggregateFunction.Min, AggregateFunction.Max)", "")
+    for c in ups:
+        recv = c.func.value  # type: ignore[attr-defined]
+        orgs = {st.origin.get(unparse(recv), "") for st in it.states(c)}
+        ck.need(len(orgs) == 1 and next(iter(orgs)).endswith(".elements[*]"), "merged elements are taken from the aggregates' element lists")
+        src = next(iter(orgs))[: -len(".elements[*]")]
+        okm = it.reachable(c) and it.holds(c, f"{src}.function not in (AggregateFunction.Min, AggregateFunction.Max)")
+        ck.add(f"elements of {src} are merged only if it is not a #min/#max aggregate", okm, func, c, f"`{fmt(c)}` dominated by `{src}.function not in (Min, Max)`: {okm}",
+               "the merged aggregate is a #sum: elements of a #max operand would be added up instead of maximised")
+    comb = ck.func(f"{G}.combine")
+    itc = ck.interp(comb)
+    rets = [r for r in returns_of(comb) if isinstance(r.value, ast.Tuple) and len(r.value.elts) == 5]
+    ck.need(len(rets) == 1, "combine returns the five-tuple at one site")
+    # the relations list is edited inside the accepting branch, which makes the engine forget what it knew about values read
+    # from it before; rel1 / rel2 / agg_common themselves are not rebound there, so the test is evaluated at the branch entry
+    gate = next((a for a in ancestors(comb, rets[0]) if isinstance(a, ast.If) and any(rets[0] is x for s in a.body for x in ast.walk(s))), None)
+    ck.need(gate is not None, "the five-tuple is returned inside the accepting branch")
+    rebound = {n.id for s in gate.body for n in ast.walk(s) if isinstance(n, ast.Name) and isinstance(n.ctx, ast.Store)}  # type: ignore[union-attr]
+    entry = gate.body[0]  # type: ignore[union-attr]
+    for rel in ("rel1", "rel2"):
+        cond = f"len((set({rel}.free_symbols) - agg_common).intersection(self._sym2agg.keys())) == 0"
+        okc = itc.holds(entry, cond) and not ({rel, "agg_common"} & rebound)
+        ck.add(f"two guards are merged only if {rel} has no aggregate besides the common ones", okc, comb, rets[0], f"`{fmt(rets[0])}` dominated by `{cond}`: {okc}",
+               "the merged relation uses one middle term for both guards: with a further aggregate in one of them `Y >= 1` becomes `W + Y >= 1`")
+    okc = itc.holds(entry, "common") and "common" not in rebound
+    ck.add("... and only if they share a term", okc, comb, rets[0], f"dominated by `common`: {okc}", "")
     mul = ck.func(f"{G}.new_mul")
     itm = ck.interp(mul)
     scaled = [n for n in find_nodes(mul.node, lambda n: isinstance(n, ast.Assign) and isinstance(n.targets[0], ast.Subscript)) if unparse(n.targets[0]) == "newterms[0]"]
